@@ -241,11 +241,13 @@ def r103(chk, w):
                    sample={"pos": pos, "length": ln})
             # the index_mut on `examples` (arg3) that precedes this constructor on the path
             k = max(i for i, x in enumerate(o.trace) if x is e or (x[0] == "call" and x[1] == e[1]))
-            idx = [x for x in o.trace[:k] if x[0] == "call" and x[2] and "IndexMut" in x[2] and x[3][0][0] == "ref" and x[3][0][1][:1] == (("A", 3),)]
+            idx = [x for x in o.trace[:k] if (x[0] == "call" and x[2] and "IndexMut" in x[2] and x[3][0][0] == "ref" and x[3][0][1][:1] == (("A", 3),))
+                   or (x[0] == "index" and x[2][:1] == (("A", 3),))]
             if not idx:
                 chk.undecided("R10.3", "dict:%s:index" % pos, "no examples[..] index before the feature push", site=C.site(b, e[1]))
                 continue
-            ix = canon_m(rn(C.show_arg(nz, idx[-1][3][1])))
+            last = idx[-1]
+            ix = canon_m(rn(C.show_arg(nz, last[3][1] if last[0] == "call" else last[3])))
             # a path on which start == 0 was established shows the constant
             ok = ix == widx or (pos == "inside" and ix.replace("start: 0", "start: start") == widx)
             chk.ob("R10.3", "dict:%s:index" % pos, ok, "dictionary %s feature is added to examples[%s], specification examples[%s]" % (pos, ix, widx), site=C.site(b, idx[-1][1]),
